@@ -25,7 +25,6 @@ import uuid
 from .loopback import FakeHttpServer, LoopbackSoapClient, Network
 from .mdibharness import FIXTURE_ONE, _load_repo
 from .pair import NullWsDiscovery
-from .tlc import MachineryError
 
 CERT_FOLDER = os.path.join(os.environ.get('VERIF_REPO', '/repo'), 'tests', 'certificates')
 IP = '127.0.0.1'
@@ -237,7 +236,7 @@ def urls_in(data: bytes | str | None, net: TlsNetwork) -> list[tuple[str, str, s
                 continue
             hostport = m.group(2)
             host, _, port = hostport.rpartition(':')
-            if host not in (IP, ALT_HOST) or not port.isdigit() or int(port) not in net.owner:
+            if not host or not port.isdigit() or int(port) not in net.owner:   # any host name, the port tells the owner
                 continue
             found.append((net.owner[int(port)], _kind(elem, attr), m.group(1), tok))
 
@@ -288,18 +287,12 @@ class TlsPair:
     """A real SdcProvider and a real SdcConsumer for one configuration; driven phase by phase by the check.
 
     cfg: dict(ptls 'off'|'on', ctls 'none'|'optional'|'enforced', psrv/csrv 'shared'|'own', alt 'none'|'set',
-              peer 'yes'|'no', mgr 'sync'|'async')
+              peer 'yes'|'no', mgr 'sync'|'async'|'sync_ref'|'async_ref')
     """
 
     def __init__(self, cfg: dict, fixture=FIXTURE_ONE):
         _load_repo()
         import sdc11073.httpserver.httpserverimpl as httpserverimpl
-        from sdc11073.mdib import ProviderMdib
-        from sdc11073.provider import SdcProvider
-        from sdc11073.provider.providerimpl import (provider_components_async_factory,
-                                                    provider_components_sync_factory)
-        from sdc11073.xml_types.dpws_types import ThisDeviceType, ThisModelType
-        from tutorial.productandroles.exampleproduct import EXAMPLE_ROLE_PROVIDER_COMPONENTS
 
         self.cfg = cfg
         self.net = TlsNetwork(downgrade=cfg['peer'] == 'no')
@@ -312,19 +305,37 @@ class TlsPair:
                 self.net.contexts[id(cont.client_context)] = f'{party}.client'
                 self.net.contexts[id(cont.server_context)] = f'{party}.server'
         self.consumer = None
-        self.cmdib = None
+        self.provider_started = False
         self.pserver = None
         self.cserver = None
         self._httpserverimpl = httpserverimpl
         self._orig_httpd = httpserverimpl._ThreadingHTTPServer  # noqa: SLF001
         httpserverimpl._ThreadingHTTPServer = type('FakeHttpdBound', (FakeHttpd,), {'network': self.net})  # noqa: SLF001
+        try:
+            self._start_provider(cfg, fixture)
+        except BaseException:
+            httpserverimpl._ThreadingHTTPServer = self._orig_httpd  # noqa: SLF001
+            raise
 
+    def _start_provider(self, cfg, fixture):
+        from sdc11073.mdib import ProviderMdib
+        from sdc11073.provider import SdcProvider
+        from sdc11073.provider.providerimpl import (provider_components_async_factory,
+                                                    provider_components_sync_factory)
+        from sdc11073.xml_types.dpws_types import ThisDeviceType, ThisModelType
+        from tutorial.productandroles.exampleproduct import EXAMPLE_ROLE_PROVIDER_COMPONENTS
         mdib = ProviderMdib.from_mdib_file(fixture)
         mdib.context_states.clear()
         mdib.context_states.handle_version_lookup.clear()
         self.mdib = mdib
-        comps = provider_components_async_factory() if cfg.get('mgr') == 'async' else provider_components_sync_factory()
+        mgr = cfg.get('mgr', 'sync')
+        comps = provider_components_async_factory() if mgr.startswith('async') else provider_components_sync_factory()
         comps.soap_client_class = mk_tls_client_class(self.net, 'provider')
+        if mgr.endswith('_ref'):     # subscriptions identified by reference parameters instead of path suffixes
+            from sdc11073.provider.subscriptionmgr import ReferenceParamSubscriptionsManager
+            from sdc11073.provider.subscriptionmgr_async import SubscriptionsManagerReferenceParamAsync
+            cls = SubscriptionsManagerReferenceParamAsync if mgr.startswith('async') else ReferenceParamSubscriptionsManager
+            comps.subscriptions_manager_class = {'StateEvent': cls, 'Set': cls}
         model = ThisModelType(manufacturer='Verif', manufacturer_url='www.example.com', model_name='VerifDevice',
                               model_number='1.0', model_url='www.example.com/model',
                               presentation_url='www.example.com/presentation')
@@ -351,6 +362,9 @@ class TlsPair:
         ccomps = default_components_factory()
         ccomps.soap_client_class = mk_tls_client_class(self.net, 'consumer')
         ccomps.action_dispatcher_class = RequestDispatcher
+        if cfg.get('mgr', 'sync').endswith('_ref'):
+            from sdc11073.consumer.subscription import ClientSubscriptionManagerReferenceParams
+            ccomps.subscription_manager_class = ClientSubscriptionManagerReferenceParams
         x_addr = self.provider.get_xaddrs()[0]
         self.consumer = SdcConsumer(x_addr, SdcV1Definitions, self.c_ssl, epr=uuid.UUID(int=2), validate=True,
                                     components=ccomps, force_ssl_connect=cfg['ctls'] == 'enforced',
@@ -401,8 +415,3 @@ class TlsPair:
             for srv in self.net.own_servers:
                 srv.shutdown()
                 srv.server_close()
-
-
-def require(cond, msg):
-    if not cond:
-        raise MachineryError(msg)
